@@ -16,6 +16,35 @@
 //! Errors during execution are encapsulated in the `GrevmError` type, which includes the
 //! transaction ID and the underlying EVM error. This allows for precise debugging and error
 //! reporting.
+// Model-checking hooks (see /verif): named schedule points and observation callbacks. Both expand
+// to nothing unless the crate is compiled with `--cfg grevm_verif`.
+#[cfg(grevm_verif)]
+macro_rules! vpoint {
+    ($id:ident) => {
+        grevm_verif_rt::point(grevm_verif_rt::pt::$id)
+    };
+}
+#[cfg(not(grevm_verif))]
+macro_rules! vpoint {
+    ($id:ident) => {};
+}
+#[cfg(grevm_verif)]
+macro_rules! vobs {
+    ($kind:ident, $txid:expr, $a:expr, $b:expr, $c:expr) => {
+        grevm_verif_rt::observe(grevm_verif_rt::obs::ev(
+            grevm_verif_rt::obs::kind::$kind,
+            $txid,
+            $a,
+            $b,
+            $c,
+        ))
+    };
+}
+#[cfg(not(grevm_verif))]
+macro_rules! vobs {
+    ($kind:ident, $txid:expr, $a:expr, $b:expr, $c:expr) => {};
+}
+
 mod account;
 mod beneficiary;
 mod bundle;
@@ -30,6 +59,8 @@ mod scheduler;
 #[cfg(feature = "test-utils")]
 pub mod test_utils;
 mod tx_dependency;
+#[cfg(grevm_verif)]
+pub mod verif_export;
 
 pub(crate) use model::{
     AbortReason, AccountBasic, LocationAndType, MVMemory, MemoryEntry, MemoryValue, ReadVersion,
